@@ -14,6 +14,16 @@ CHECKS = {
              'dtype pairings and diffing outputs, totals, errors and access traces; an independent numpy.cumsum oracle decides violations.',
         note='Trusted: Lean kernel (+propext, Classical.choice, Quot.sound), the correspondence harness, numba bounds checking; float sums exact only on dyadic inputs.',
         design='§7 C19'),
+    'C11': dict(
+        technique='Lean 4 proofs that every array index of the modelled kernels stays in range under the documented preconditions (models route each access through the Python index rule) + bounds-checked compiled runs and py_func index recording on boundary-directed inputs',
+        text='Index-arithmetic theorems (interp_inbounds for every value the float quotient can round to, rowLoop_inbounds for the element-wise decoders, '
+             'cumsum_inbounds; the in-bounds corollaries of the other kernels are proved with their own property models: zipper C01, pack9 C15, TSC/CIC C06, '
+             'partition C17, _tsc_parallel C07, mode binning C08, HOD passes/concatenate C10). The tie to the code: every anchored kernel is run compiled under '
+             'NUMBA_BOUNDSCHECK=1 and, for serial kernels, as py_func on index-recording arrays, on inputs generated from the preconditions at their boundaries '
+             '(empty arrays, zero-particle halos, one-cell-thick and 2-cell grids, x == BoxSize with float overshoot, odd npartition, ranges below the largest mode, '
+             'interpolation one ulp inside the end points); an index fault is the failing input.',
+        note='Partial: this is index arithmetic, not the machine — numba code generation, np.empty sizes and LLVM are trusted; kernels outside the anchored files are only observed, not modelled.',
+        design='§7 C11'),
 }
 
 NOT_YET = {}
